@@ -158,7 +158,7 @@ def run(chk):
 def replay(chk, rep):
     R = asm_streams.Runner(("debug",))
     r = rep.get("replay", rep)
-    if r.get("kind") in ("static", "static_switch"):
+    if r.get("kind") in ("static", "static_switch", "static_tables", "defines"):
         import ext_static
         return ext_static.replay(chk, rep)
     if r.get("kind") == "match":
